@@ -42,6 +42,17 @@ PURE_BUILTINS = {
     'isinstance', 'issubclass', 'hasattr', 'id', 'hash', 'callable', 'any',
     'all', 'sum', 'reversed', 'iter', 'map', 'filter', 'divmod', 'round',
     'object', 'memoryview', 'slice', 'vars', 'dir'}
+BOOLEAN_OPS = {'==', '!=', 'is', 'isnot', 'in', 'notin', '<', '<=', '>', '>=',
+               'not', 'isinstance', 'issubclass', 'hasattr', 'callable',
+               'bool', 'truth', 'any', 'all'}
+
+
+def is_boolean(t):
+    """the term can only be True or False"""
+    return (t[0] == 'op' and t[1] in BOOLEAN_OPS) or (
+        t[0] == 'const' and isinstance(t[1], bool))
+
+
 CONST_STR_METHODS = {
     'upper', 'lower', 'strip', 'lstrip', 'rstrip', 'title', 'capitalize',
     'encode', 'replace', 'startswith', 'endswith', 'split', 'rsplit',
@@ -493,6 +504,12 @@ class PathSum(object):
             out = []
             for s, v in self.ev(n.value, st, fi):
                 if s.outcome is None:
+                    if v[0] == 'op' and is_boolean(v):
+                        # a bool whose truth the path knows is that constant
+                        a, pol = self.atom(v)
+                        d = self.decide(a, s)
+                        if d is not None:
+                            v = const(d == pol)
                     s.outcome = ('return', v, n)
                 out.append(s)
             return out
@@ -1070,7 +1087,10 @@ class PathSum(object):
                             if tr == is_and:
                                 nxt.append(s3)
                             else:
-                                out.append((s3, t))
+                                # a bool-valued operand whose truth is known
+                                # on this path is that constant
+                                out.append((s3, const(tr) if is_boolean(t)
+                                            else t))
                 live = nxt
             return out
         if isinstance(e, ast.UnaryOp):
